@@ -138,7 +138,77 @@ def op_tmpvar(fn):
     return changed
 
 
-OPS = {"rename": op_rename, "negif": op_negif, "retvar": op_retvar, "tmpvar": op_tmpvar}
+def _ends(body):
+    return bool(body) and isinstance(body[-1], (ast.Return, ast.Raise, ast.Continue, ast.Break))
+
+
+def op_elseify(fn):
+    """`if c: ...; return` followed by the rest of the block -> the rest becomes the else branch"""
+    changed = False
+    for blk in _blocks(fn):
+        for i, s in enumerate(blk):
+            if isinstance(s, ast.If) and not s.orelse and _ends(s.body) and i + 1 < len(blk):
+                rest = blk[i + 1:]
+                if any(isinstance(x, (ast.FunctionDef, ast.AsyncFunctionDef, ast.ClassDef)) for x in rest):
+                    continue
+                s.orelse = rest
+                del blk[i + 1:]
+                changed = True
+                break
+    return changed
+
+
+def op_unelse(fn):
+    """`if c: ...; return  else: rest` -> `if c: ...; return` + rest"""
+    changed = False
+    for blk in _blocks(fn):
+        i = 0
+        while i < len(blk):
+            s = blk[i]
+            if isinstance(s, ast.If) and s.orelse and _ends(s.body) and not (len(s.orelse) == 1 and isinstance(s.orelse[0], ast.If)):
+                rest = s.orelse
+                s.orelse = []
+                blk[i + 1:i + 1] = rest
+                changed = True
+            i += 1
+    return changed
+
+
+def _simple(e):
+    if isinstance(e, (ast.Name, ast.Constant)):
+        return True
+    if isinstance(e, ast.Attribute):
+        return _simple(e.value)
+    return False
+
+
+def op_argvar(fn):
+    """`f(a, g(x))` as a whole statement / assigned value -> `arg__1 = g(x); f(a, arg__1)` (callee and earlier arguments are plain names)"""
+    changed = False
+    k = 0
+    for blk in _blocks(fn):
+        i = 0
+        while i < len(blk):
+            s = blk[i]
+            call = s.value if isinstance(s, (ast.Assign, ast.Expr, ast.Return)) and isinstance(getattr(s, "value", None), ast.Call) else None
+            if call is not None and _simple(call.func) and not any(isinstance(a, ast.Starred) for a in call.args):
+                for j, a in enumerate(call.args):
+                    if isinstance(a, (ast.Call, ast.BinOp)) and all(_simple(b) for b in call.args[:j]):
+                        k += 1
+                        tmp = "arg__%d" % k
+                        blk.insert(i, ast.Assign(targets=[ast.Name(id=tmp, ctx=ast.Store())], value=a))
+                        call.args[j] = ast.Name(id=tmp, ctx=ast.Load())
+                        i += 1
+                        changed = True
+                        break
+                    if not _simple(a):
+                        break
+            i += 1
+    return changed
+
+
+OPS = {"rename": op_rename, "negif": op_negif, "retvar": op_retvar, "tmpvar": op_tmpvar, "elseify": op_elseify, "unelse": op_unelse,
+       "argvar": op_argvar}
 
 
 def find_func(tree, qual_tail):
